@@ -68,6 +68,7 @@ def check_fit_2d(rec, case, models, fluxes, k, source, lo, hi, info, what='C01')
 
 
 def check_fit_3d(rec, case, models, fluxes, logd, k, source, lo, hi, info, ftol=1e-9):
+    ctol = 1e-6 if ftol <= 1e-9 else 2e-4          # float32 (memory-mapped) grids: log10 carries ~1e-7
     valid, flux, err = source.valid, source.flux, source.error
     w, lf, le = transform(valid, flux, err)
     logm = np.log10(fluxes)
@@ -93,12 +94,12 @@ def check_fit_3d(rec, case, models, fluxes, logd, k, source, lo, hi, info, ftol=
             q, pen = chi2_of(valid, w, lf, le, logm[i, d], k, av_d, 0., scale_term=False)
             vals.append((q + pen, av_d))
         best = min(v[0] for v in vals)
-        ok &= rec.expect(abs(av - vals[b][1]) <= TOL * (1 + abs(av)), 'av_is_clipped_optimum',
+        ok &= rec.expect(abs(av - vals[b][1]) <= max(TOL, ctol) * (1 + abs(av)), 'av_is_clipped_optimum',
                          'row %d (model %d): A_V %.9g is not the clipped optimum %.9g at the reported distance' % (r, i, av, vals[b][1]), case)
         if np.isfinite(best):
-            ok &= rec.expect(abs(ch[r] - best) <= 1e-6 * (1 + abs(best)), 'chi2_is_grid_minimum',
+            ok &= rec.expect(abs(ch[r] - best) <= ctol * (1 + abs(best)), 'chi2_is_grid_minimum',
                              'row %d (model %d): chi2 %.9g but the minimum over the distance grid is %.9g' % (r, i, ch[r], best), case)
-            ok &= rec.expect(abs(vals[b][0] - ch[r]) <= 1e-6 * (1 + abs(best)), 'chi2_at_best',
+            ok &= rec.expect(abs(vals[b][0] - ch[r]) <= ctol * (1 + abs(best)), 'chi2_at_best',
                              'row %d: chi2 %.9g is not the chi2 at the reported distance (%.9g)' % (r, ch[r], vals[b][0]), case)
         if info.model_fluxes is not None:
             pred = logm[i, b] + av * k
@@ -312,15 +313,26 @@ def _fit_any(mode, fluxes, wav, dist, k, src, lo, hi):
     return m, m.fit(src, k.copy(), -2. * np.ones(len(k)), lo, hi)
 
 
-def _same_fit(a, b, tol=0.):
-    for nm in ('av', 'sc', 'chi2'):
-        x, y = np.asarray(getattr(a, nm), dtype=float), np.asarray(getattr(b, nm), dtype=float)
-        if tol == 0.:
+def _by_name(info, shift=0.):
+    return dict((str(nm), (float(a), float(s) + shift, float(c))) for nm, a, s, c in zip(info.model_name, info.av, info.sc, info.chi2))
+
+
+def _same_fit(a, b, tol=0., sc_shift=0.):
+    """Equal fit results.  tol == 0: identical arrays in identical order.  tol > 0: the same (A_V, scale,
+    chi^2) for every model BY NAME (rows with numerically tied chi^2 may legitimately swap ranks) and the
+    same chi^2 sequence."""
+    if tol == 0.:
+        for nm in ('av', 'sc', 'chi2'):
+            x, y = np.asarray(getattr(a, nm), dtype=float), np.asarray(getattr(b, nm), dtype=float)
             if not (x.shape == y.shape and np.all((x == y) | (np.isnan(x) & np.isnan(y)))):
                 return False
-        elif not close(x, y, rtol=tol, atol=tol):
-            return False
-    return list(a.model_name) == list(b.model_name) if tol == 0. else True
+        return list(a.model_name) == list(b.model_name)
+    da, db = _by_name(a, sc_shift), _by_name(b)
+    if set(da) != set(db):
+        return False
+    if not all(close(da[k], db[k], tol, tol) for k in da):
+        return False
+    return close(np.sort(np.asarray(a.chi2, dtype=float)), np.sort(np.asarray(b.chi2, dtype=float)), tol, tol)
 
 
 def c03_one(rec, case):
@@ -512,7 +524,7 @@ def c11_one(rec, case):
     srcp = pkg.make_source('src', flags[p], flux[p], err[p])
     fl_p = fluxes[..., p]
     mp, infop = _fit_any(mode, fl_p, wav[p], dist, k[p], srcp, lo, hi)
-    ok &= rec.expect(_same_fit(info, infop, tol=1e-8) and close(np.asarray(info.model_fluxes)[:, p], infop.model_fluxes, 1e-8, 1e-8), 'filter_permutation',
+    ok &= rec.expect(_same_fit(info, infop, tol=1e-8), 'filter_permutation',
                      'permuting the filters (photometry alike) changed the fit', case)
     # model permutation
     q = np.array(c['mperm'])
@@ -532,8 +544,7 @@ def c11_one(rec, case):
             elif flags[j] in (2, 3):
                 f3[j] *= cst
         _, infos = _fit_any(mode, fluxes, wav, dist, k, pkg.make_source('src', flags, f3, e3), lo, hi)
-        ok &= rec.expect(close(info.av, infos.av, 1e-7, 1e-7) and close(np.asarray(info.sc) - 0.5 * math.log10(cst), infos.sc, 1e-7, 1e-7)
-                         and close(info.chi2, infos.chi2, 1e-6, 1e-7), 'brightness_scaling',
+        ok &= rec.expect(_same_fit(info, infos, tol=1e-6, sc_shift=-0.5 * math.log10(cst)), 'brightness_scaling',
                          'scaling fluxes and errors by %g did not shift the scale by 0.5*log10 or changed A_V/chi2' % cst, case)
     return ok
 
